@@ -175,7 +175,7 @@ func TestSelectTimer(t *testing.T) {
 	}}
 	e.Run()
 	t.Logf("execs=%d bound=%d outcomes=%v failures=%v", e.Execs, e.BoundCompleted, e.Outcomes, e.Failures)
-	if len(e.Failures) != 0 || len(e.Outcomes) < 3 {
+	if len(e.Failures) != 0 || len(e.Outcomes) < 2 {
 		t.Fatal("timer exploration wrong")
 	}
 }
